@@ -6,7 +6,7 @@ import re
 
 from .. import common as c, corpus, translate
 
-THEOREMS = [("Sylvia.Thm.C19", "C19.no_literal_framework_root"), ("Sylvia.Thm.C19", "C19.helper_params_clear"),
+THEOREMS = [("Sylvia.Thm.C19", "C19.no_literal_framework_root"), ("Sylvia.Thm.C19", "C19.roots_resolve_without_user_scope"), ("Sylvia.Thm.C19", "C19.helper_params_clear"),
             ("Sylvia.Thm.Obl.Complete.C19", "Obl.extraction_complete_C19")]
 FRAMEWORK = {"sylvia", "cosmwasm_std", "cosmwasm_schema", "cw_multi_test", "cw_utils", "schemars", "serde", "serde_json", "anyhow", "cw_std", "cw_schema"}
 WORDS = ["Msg", "Query", "Param", "Item", "Data", "Key", "Value", "Exec", "Custom", "Config", "State"]
@@ -61,6 +61,65 @@ fn main() {
 """
 
 
+# A module that imports *nothing* by name: every framework type is written through the crate path. Whatever a template emits
+# as a bare name (`Response::new()`, `StdError::..`) then fails to resolve. Reply handlers of every outcome pattern (so every
+# pass-through arm is generated), an interface, all message kinds.
+SCOPE_FREE_BIN = """pub mod ifc {
+    #[sylvia::interface]
+    #[sv::custom(msg=sylvia::cw_std::Empty, query=sylvia::cw_std::Empty)]
+    pub trait Ifc {
+        type Error: From<sylvia::cw_std::StdError>;
+        #[sv::msg(exec)]
+        fn put(&self, ctx: sylvia::ctx::ExecCtx, v: u32) -> Result<sylvia::cw_std::Response, Self::Error>;
+        #[sv::msg(query)]
+        fn get(&self, ctx: sylvia::ctx::QueryCtx) -> Result<u32, Self::Error>;
+        #[sv::msg(sudo)]
+        fn su(&self, ctx: sylvia::ctx::SudoCtx) -> Result<sylvia::cw_std::Response, Self::Error>;
+    }
+}
+pub mod ct {
+    pub struct Ct;
+    impl crate::ifc::Ifc for Ct {
+        type Error = sylvia::cw_std::StdError;
+        fn put(&self, _ctx: sylvia::ctx::ExecCtx, _v: u32) -> Result<sylvia::cw_std::Response, Self::Error> { Ok(sylvia::cw_std::Response::new()) }
+        fn get(&self, _ctx: sylvia::ctx::QueryCtx) -> Result<u32, Self::Error> { Ok(1) }
+        fn su(&self, _ctx: sylvia::ctx::SudoCtx) -> Result<sylvia::cw_std::Response, Self::Error> { Ok(sylvia::cw_std::Response::new()) }
+    }
+    #[sylvia::entry_points]
+    #[sylvia::contract]
+    #[sv::messages(crate::ifc)]
+    #[sv::features(replies)]
+    impl Ct {
+        pub const fn new() -> Self { Self }
+        #[sv::msg(instantiate)]
+        fn instantiate(&self, _ctx: sylvia::ctx::InstantiateCtx, _a: u32) -> sylvia::cw_std::StdResult<sylvia::cw_std::Response> { Ok(sylvia::cw_std::Response::new()) }
+        #[sv::msg(exec)]
+        fn run(&self, _ctx: sylvia::ctx::ExecCtx, _a: String) -> sylvia::cw_std::StdResult<sylvia::cw_std::Response> { Ok(sylvia::cw_std::Response::new()) }
+        #[sv::msg(query)]
+        fn ask(&self, _ctx: sylvia::ctx::QueryCtx) -> sylvia::cw_std::StdResult<u64> { Ok(2) }
+        #[sv::msg(sudo)]
+        fn force(&self, _ctx: sylvia::ctx::SudoCtx) -> sylvia::cw_std::StdResult<sylvia::cw_std::Response> { Ok(sylvia::cw_std::Response::new()) }
+        #[sv::msg(migrate)]
+        fn mig(&self, _ctx: sylvia::ctx::MigrateCtx) -> sylvia::cw_std::StdResult<sylvia::cw_std::Response> { Ok(sylvia::cw_std::Response::new()) }
+        #[sv::msg(reply, reply_on=error)]
+        fn only_err(&self, _ctx: sylvia::ctx::ReplyCtx, _error: String, _p: u32) -> sylvia::cw_std::StdResult<sylvia::cw_std::Response> { Ok(sylvia::cw_std::Response::new()) }
+        #[sv::msg(reply, reply_on=success)]
+        fn only_ok(&self, _ctx: sylvia::ctx::ReplyCtx, #[sv::data(opt)] _d: Option<u32>, _p: u32) -> sylvia::cw_std::StdResult<sylvia::cw_std::Response> { Ok(sylvia::cw_std::Response::new()) }
+        #[sv::msg(reply, reply_on=always)]
+        fn both(&self, _ctx: sylvia::ctx::ReplyCtx, _r: sylvia::cw_std::SubMsgResult, #[sv::payload(raw)] _p: sylvia::cw_std::Binary) -> sylvia::cw_std::StdResult<sylvia::cw_std::Response> { Ok(sylvia::cw_std::Response::new()) }
+        #[sv::msg(reply, handlers=[paired], reply_on=success)]
+        fn paired_ok(&self, _ctx: sylvia::ctx::ReplyCtx, #[sv::data(raw)] _d: sylvia::cw_std::Binary, _q: u8) -> sylvia::cw_std::StdResult<sylvia::cw_std::Response> { Ok(sylvia::cw_std::Response::new()) }
+        #[sv::msg(reply, handlers=[paired], reply_on=error)]
+        fn paired_err(&self, _ctx: sylvia::ctx::ReplyCtx, _error: String, _q: u8) -> sylvia::cw_std::StdResult<sylvia::cw_std::Response> { Ok(sylvia::cw_std::Response::new()) }
+    }
+}
+fn main() {
+    let m = ct::sv::ExecMsg::run("x".to_string());
+    let _ = sylvia::cw_std::to_json_string(&m);
+}
+"""
+
+
 def static_rows(ctx):
     """which template sites break the two obligations (for the replay, when they do)"""
     rows = []
@@ -111,6 +170,7 @@ def generic_names_stream(ctx):
     os.makedirs(os.path.join(d, "src", "bin"), exist_ok=True)
     for n in NAMES:
         c.write_if_changed(os.path.join(d, "src", "bin", "g_%s.rs" % n.lower() if len(n) > 1 else os.path.join(d, "src", "bin", "g_%s_.rs" % n.lower())), GENERIC_BIN.replace("@N@", n))
+    c.write_if_changed(os.path.join(d, "src", "bin", "scope_free.rs"), SCOPE_FREE_BIN)
     c.ensure_ws_members({"cgen": None})
     p = c.cargo(["check", "--offline", "-p", "cgen", "--bins", "--keep-going", "--message-format=json"], cwd=c.WS, timeout=3600)
     errors = {}
@@ -129,7 +189,12 @@ def generic_names_stream(ctx):
             bad += 1
             ctx.violation("parameter-name-collides:" + n, "a generic contract / interface whose type parameter is named `%s` does not compile: %s" % (n, errors[t][0][:200]),
                           {"program": GENERIC_BIN.replace("@N@", n), "rustc": errors[t][:3]})
-    ctx.add_stream("generic-parameter-names", len(NAMES), len(NAMES), samples=NAMES[:3], names=NAMES, failing=bad, exhaustive=True)
+    if "scope_free" in errors:
+        bad += 1
+        ctx.violation("relies-on-user-scope", "a contract module that imports nothing by name (every framework type written through the crate path) "
+                      "does not compile: %s" % " | ".join(errors["scope_free"][:3])[:400],
+                      {"program": SCOPE_FREE_BIN, "rustc": errors["scope_free"][:4]})
+    ctx.add_stream("generic-parameter-names", len(NAMES) + 1, len(NAMES) + 1, samples=NAMES[:3], names=NAMES + ["(module importing nothing)"], failing=bad, exhaustive=True)
 
 
 def run(ctx):
